@@ -417,6 +417,86 @@ func ifs(b bool, x, y string) string {
 
 func c15() []*Ob {
 	return []*Ob{
+		{Prop: "C15", ID: "C15.7", Engine: "DOM(truncate)", Floor: 1,
+			Desc:  "an interrupted start-up leaves the data as it found it: Active.Replay cuts the files only where it read the log to its end (shared rule with C01.12) — a start that is stopped by a signal while an active fraction is replayed must not shorten that fraction: the next start would serve only a part of it, or delete it as empty",
+			Check: func(c *Ctx) { truncateOnlyAtEOF(c) }},
+		{Prop: "C15", ID: "C15.6", Engine: "PAIR(measure)", Floor: 1,
+			Desc: "retention counts down what it counted up: the per-fraction amount shrinkSizes subtracts from the running total when it drops a fraction is computed by the same function (Info.FullSize) as the per-fraction amounts List.GetTotalSize added up — if the total leaves out a part that the subtraction includes (.meta of a not yet sealed fraction), the unsigned total wraps around below zero and retention goes on deleting until no fraction is left, the newest included",
+			Check: func(c *Ctx) {
+				fn := c.Fn("(*fracmanager.FracManager).shrinkSizes")
+				if fn == nil {
+					return
+				}
+				measureOf := func(v ssa.Value) string {
+					name := ""
+					DerivesFrom(v, func(x ssa.Value) bool {
+						cl, ok := x.(*ssa.Call)
+						if !ok || cl.Call.IsInvoke() {
+							return false
+						}
+						if h := StaticCallee(cl); h != nil && c.P.InRepo(h) && isUnsignedResult(h) && h.Signature.Recv() != nil && strings.HasSuffix(TypeStr(h.Signature.Recv().Type()), "frac.Info") {
+							name = FuncName(h)
+							return true
+						}
+						return false
+					})
+					return name
+				}
+				// the subtraction from the running total
+				var sub *ssa.BinOp
+				for _, b := range fn.Blocks {
+					for _, in := range b.Instrs {
+						if bo, ok := in.(*ssa.BinOp); ok && bo.Op == token.SUB && InLoop(b) {
+							if _, isPhi := bo.X.(*ssa.Phi); isPhi && measureOf(bo.Y) != "" {
+								sub = bo
+							}
+						}
+					}
+				}
+				if sub == nil {
+					c.Undecided("pair:retention-measure:nosub", fn.Pos(), "shrinkSizes no longer subtracts a per-fraction size (a method of frac.Info) from a running total in its loop")
+					return
+				}
+				want := measureOf(sub.Y)
+				// where the total comes from: the helper that adds the per-fraction amounts up
+				var total *ssa.Function
+				for _, e := range sub.X.(*ssa.Phi).Edges {
+					if cl, ok := e.(*ssa.Call); ok {
+						if h := StaticCallee(cl); h != nil && c.P.InRepo(h) {
+							total = h
+						}
+					}
+				}
+				if total == nil {
+					c.Undecided("pair:retention-measure:nototal", sub.Pos(), "cannot see which function computes the total that shrinkSizes counts down from")
+					return
+				}
+				n, bad := 0, 0
+				for _, b := range total.Blocks {
+					for _, in := range b.Instrs {
+						bo, ok := in.(*ssa.BinOp)
+						if !ok || bo.Op != token.ADD || !InLoop(b) {
+							continue
+						}
+						if _, isPhi := bo.X.(*ssa.Phi); !isPhi {
+							continue
+						}
+						if k, isK := ConstInt(bo.Y); isK && k == 1 {
+							continue // the loop counter
+						}
+						n++
+						if got := measureOf(bo.Y); got != want {
+							bad++
+							c.Violation("pair:retention-measure:"+FuncName(total), bo.Pos(), "%s adds up a per-fraction amount that is not %s (%s), while shrinkSizes subtracts %s for every fraction it drops: the two disagree for a fraction that still has its .meta file, the unsigned total wraps around and retention deletes every fraction", FuncName(total), want, map[bool]string{true: "no size method of frac.Info", false: got}[got == ""], want)
+						}
+					}
+				}
+				if n == 0 {
+					c.Undecided("pair:retention-measure:noadd", total.Pos(), "%s no longer adds per-fraction amounts in a loop", FuncName(total))
+				} else if bad == 0 {
+					c.Site(sub.Pos(), "the total is summed and counted down with %s", want)
+				}
+			}},
 		{Prop: "C15", ID: "C15.1", Engine: "FILESTATE", Floor: 40,
 			Desc:  "for every configuration and every crash prefix of create/seal/release/suicide/loader-cleanup, the loader's decision table never reaches a fatal sink, serves live fractions (ACTIVE/SEALED with the files they need), and finishes off every deletion that has begun (monotone)",
 			Check: func(c *Ctx) { fileStateObligations(c, "C15") }},
@@ -739,4 +819,13 @@ func constString(pk *types.Package, name string) string {
 		return constant.StringVal(o.Val())
 	}
 	return ""
+}
+
+func isUnsignedResult(f *ssa.Function) bool {
+	r := f.Signature.Results()
+	if r.Len() != 1 {
+		return false
+	}
+	b, ok := r.At(0).Type().Underlying().(*types.Basic)
+	return ok && b.Info()&types.IsUnsigned != 0
 }
